@@ -718,6 +718,65 @@ def rule_hashord(ctx):
                         r.exempt(key, where, HASHORD_TABLE[tkey])
                     else:
                         undecided.append(f"{where} {tkey} [{cons}/{kind}: {how}]")
+    # (seed C17_11) tables keyed by sets of labels: `self.T = {frozenset(): ...}` / `self.T[<set>] = ...`.  A function
+    # used as `key=` over `self.T.items()` receives (set of labels, value) pairs: whatever it does with element 0 in
+    # iteration order (tuple(), list(), a loop that appends) ranks candidates by PYTHONHASHSEED.
+    n_tab = 0
+    for path in all_paths:
+        m = ctx.p.module(path)
+        for cls in (m.classes.values() if isinstance(m.classes, dict) else m.classes):
+            tables = set()
+            for f in cls.methods.values():
+                for n in walk_local(f.node):
+                    if isinstance(n, ast.Assign):
+                        for t in n.targets:
+                            if isinstance(t, ast.Attribute) and isinstance(t.value, ast.Name) and t.value.id == "self" and isinstance(n.value, ast.Dict) \
+                                    and n.value.keys and all(k_ is not None and _is_set_expr(ctx, f, k_) for k_ in n.value.keys):
+                                tables.add(t.attr)
+                            if isinstance(t, ast.Subscript) and isinstance(t.value, ast.Attribute) and isinstance(t.value.value, ast.Name) \
+                                    and t.value.value.id == "self" and _is_set_expr(ctx, f, t.slice):
+                                tables.add(t.value.attr)
+            if not tables:
+                continue
+            n_tab += len(tables)
+            for f in cls.methods.values():
+                nested = {g.name: g for g in m.all_funcs if g.qual.startswith(f.qual + ".")}
+                fl = None
+                for call in (n for n in walk_local(f.node) if isinstance(n, ast.Call)):
+                    kws = [k_ for k_ in call.keywords if k_.arg == "key"]
+                    if not kws or not call.args:
+                        continue
+                    fl = fl or ctx.flow(f)
+                    at = fl.node_of_expr(call)
+                    d_ = fl.deps(call.args[0], at, "may")
+                    if not any(x[0] == "attr" and x[1] == "self" and x[2] in tables for x in d_):
+                        continue
+                    kf = kws[0].value
+                    cands = []
+                    if isinstance(kf, ast.Lambda):
+                        cands = [(f, kf, kf.args.args[0].arg if kf.args.args else None)]
+                    elif isinstance(kf, ast.Name):
+                        # every nested definition of that name (they may be defined on alternative branches)
+                        cands = [(g, g.node, g.params[0] if g.params else None) for g in m.all_funcs
+                                 if g.qual.startswith(f.qual + ".") and g.name == kf.id]
+                    for g, root, p0 in cands:
+                        if p0 is None:
+                            continue
+                        for x in ast.walk(root):
+                            if isinstance(x, ast.Subscript) and isinstance(x.value, ast.Name) and x.value.id == p0 and \
+                                    isinstance(x.slice, ast.Constant) and x.slice.value == 0:
+                                cons, how = _consumer(g, x)
+                                par_ = g.module.parents.get(x)
+                                via = (dotted(par_.func) or "call") if isinstance(par_, ast.Call) else type(par_).__name__
+                                key = ctx.key(g, "C17-HASHORD", f"key-over-{sorted(tables)[0]}:{via}({C.unparse(x)})@{x.lineno - root.lineno}")
+                                if any(i_.construct == key and i_.loc == C.loc(g, x) for i_ in r.instances):
+                                    continue
+                                if cons == "sensitive":
+                                    r.violation(key, C.loc(g, x), f"the ranking function handed to `{C.unparse(call.func)}` over a table keyed by sets of "
+                                                f"index labels has `{C.unparse(x)}` {how}: candidates that tie otherwise are ranked by hash order — "
+                                                "the same seed gives other results in another interpreter")
+                                elif cons == "insensitive":
+                                    r.ok(key, C.loc(g, x), f"order-insensitive: {how}")
     # explicit site: ContractionTree.slice applies a frozenset of labels one by one;
     # order-insensitive only because remove_ind rebuilds sliced_inds by sorting
     tcs = ctx.p.cls(C.CORE, "ContractionTree")
